@@ -208,7 +208,8 @@ def run(ctx) -> None:
         ok = len(ropens) >= 1 and all(unparse(p) in (fp, f"str({fp})") for _c, _o, p, _k in ropens)
         ctx.check("R4", ok, f"{ifq}: reads `{fp}` itself", f"{ifq}: content is read from a different path than the one recorded", f"{[unparse(p) for _c, _o, p, _k in ropens]}", loc=it.loc())
         ys = [n for n in ast.walk(it.node) if isinstance(n, ast.Yield)]
-        ok = len(ys) == 1 and unparse(ys[0].value).endswith(f"._replace(path=str({fp}))")
+        labels = shapes.record_labels(prog, it, eng)
+        ok = len(ys) == 1 and len(labels) == 1 and labels[0][1] == f"str({fp})" and shapes.flows_from(it, ys[0].value, lambda e: e is labels[0][0])
         ctx.check("R4", ok, f"{ifq}: yields the record with path=str({fp})", f"{ifq}: the recorded path is not the path that was read", unparse(ys[0].value) if ys else "", loc=it.loc())
 
         # ---------------------------------------------------------------- R3
@@ -299,7 +300,10 @@ def run(ctx) -> None:
     ctx.visit(ipp.fq)
     lps = [n for n in walk_no_nested(ipp.node) if isinstance(n, ast.For)]
     ok = len(lps) == 1 and unparse(lps[0].iter) == f"{ipp.params[0]}.items()" and isinstance(lps[0].target, ast.Tuple) and len(lps[0].target.elts) == 2
-    if ok:
+    from checks.c06 import missing_file_rule
+    if missing_file_rule(ctx, "R4"):
+        ok = True          # evaluated: each configured key is yielded as Path(key) with its own patterns, in order
+    elif ok:
         kvar, pvar = unparse(lps[0].target.elts[0]), unparse(lps[0].target.elts[1])
         ys = [y for y in ast.walk(ipp.node) if isinstance(y, ast.Yield)]
         ok = len(ys) == 1 and isinstance(ys[0].value, ast.Tuple) and len(ys[0].value.elts) == 2 and unparse(ys[0].value.elts[1]) == pvar
